@@ -46,12 +46,12 @@ ASSUMPTIONS = ['real-valued records (complex input to the Stockwell functions is
                'response_times, smoothing frequencies, peak values) must not change; private memo attributes (e.g. the swtf attribute '
                'cached on a signal by the Stockwell helpers) are not "input arrays"']
 MIN_EVALS = {'quick': {'invariant(values numeric ndarray, len==npts, time==dt*arange)': 20000, 'purity.args-unchanged': 15000,
-                       'purity.repeatable': 2000, 'purity.result-independent-of-earlier-calls': 2000, 'purity.earlier-result-unchanged-by-later-call': 10000, 'ownership.caller-array-unchanged': 2500,
+                       'purity.repeatable': 2000, 'purity.result-independent-of-earlier-calls': 2000, 'purity.result-unaffected-by-caller-edits-of-an-earlier-result': 1500, 'purity.earlier-result-unchanged-by-later-call': 10000, 'ownership.caller-array-unchanged': 2500,
                        'ownership.object-unaffected-by-caller-writes': 350, 'ownership.object-to-object': 150,
                        'ownership.returned-signal-owns-its-data': 250, 'ownership.dt-kept-bit-for-bit': 250, 'purity.repeatable-after-other-analysis-calls': 1800,
                        'purity.signal-argument-observables-unchanged': 1800, 'purity.process-wide-numpy-state-restored': 15000},
              'thorough': {'invariant(values numeric ndarray, len==npts, time==dt*arange)': 500000, 'purity.args-unchanged': 300000,
-                          'purity.repeatable': 50000, 'purity.result-independent-of-earlier-calls': 50000, 'purity.earlier-result-unchanged-by-later-call': 200000, 'ownership.caller-array-unchanged': 60000,
+                          'purity.repeatable': 50000, 'purity.result-independent-of-earlier-calls': 50000, 'purity.result-unaffected-by-caller-edits-of-an-earlier-result': 40000, 'purity.earlier-result-unchanged-by-later-call': 200000, 'ownership.caller-array-unchanged': 60000,
                           'ownership.object-unaffected-by-caller-writes': 8000, 'ownership.object-to-object': 3500,
                           'ownership.returned-signal-owns-its-data': 6000, 'ownership.dt-kept-bit-for-bit': 5000, 'purity.repeatable-after-other-analysis-calls': 45000,
                           'purity.signal-argument-observables-unchanged': 45000, 'purity.process-wide-numpy-state-restored': 300000,
@@ -377,6 +377,29 @@ def recipes(eqsig):
     reg('stockwell.get_max_stockwell_freq', lambda rng, x, k: (sw.get_max_stockwell_freq, (A(x[:64]),), {}))
     reg('stockwell.get_max_tifq_vals_freq', lambda rng, x, k: (sw.get_max_tifq_vals_freq, (np.abs(sw.transform(np.asarray(x[:64], dtype=float))), 0.01), {}))
     reg('stockwell.generate_gaussian', lambda rng, x, k: (sw.generate_gaussian, (16,), {}))
+    reg('stockwell.generate_gaussian(n~record)', lambda rng, x, k: (sw.generate_gaussian, (max(2, len(x) // 2),), {}))
+
+    # numeric arguments in the scalar forms a caller may hold them in: Python float, numpy scalar, 0-d array (a 0-d array is
+    # mutable: `dt /= factor` inside a function changes the caller's step)
+    def SC(rng, v):
+        j = int(rng.integers(4))
+        return [float(v), np.float64(v), np.array(float(v)), np.array(float(v))][j]
+    reg('fns.interp_array_to_approx_dt(scalar forms)',
+        lambda rng, x, k: (eqsig.interp_array_to_approx_dt, (x, SC(rng, 0.01), SC(rng, float(rng.choice([0.003, 0.005, 0.025, 0.01])))), {}))
+    reg('displacements.calc_velo_and_disp_from_accel_arr(scalar forms)',
+        lambda rng, x, k: (eqsig.displacements.calc_velo_and_disp_from_accel_arr, (x, SC(rng, 0.01)), {'trap': bool(rng.integers(2))}))
+    reg('sdof.response_series(scalar forms)', lambda rng, x, k: (sdof.response_series, (x, SC(rng, 0.01), per, SC(rng, 0.05)), {}))
+    reg('sdof.pseudo_response_spectra(scalar forms)', lambda rng, x, k: (sdof.pseudo_response_spectra, (x, SC(rng, 0.01), per, SC(rng, 0.05)), {}))
+    reg('sdof.true_response_spectra(scalar forms)', lambda rng, x, k: (sdof.true_response_spectra, (x, SC(rng, 0.01), per[1:], SC(rng, 0.05)), {}))
+    reg('fns.interp_to_approx_dt(signal with 0-d dt)',
+        lambda rng, x, k: (eqsig.interp_to_approx_dt, (eqsig.AccSignal(x, np.array(0.01)), SC(rng, float(rng.choice([0.004, 0.02])))), {}))
+    reg('AccSignal(0-d dt).s_a(lazy read)', lambda rng, x, k: (
+        lambda s_: np.array(s_.s_a), (eqsig.AccSignal(x, np.array(0.01), response_times=per[1:]),), {}))
+    reg('fns.resample_to_approx_dt(signal with 0-d dt)',
+        lambda rng, x, k: (eqsig.resample_to_approx_dt, (eqsig.AccSignal(x, np.array(0.01)), SC(rng, 0.005)), {}))
+    reg('im.calc_brac_dur(scalar forms)', lambda rng, x, k: (im.calc_brac_dur, (A(x), SC(rng, 0.3 * _amp(x))), {}))
+    reg('fns.calc_roll_av_vals(scalar forms)',
+        lambda rng, x, k: (eqsig.fns.average.calc_roll_av_vals, (x, [3, np.int64(3), np.array(3), np.int32(2)][int(rng.integers(4))]), {}))
     tt = np.array([0.013, 0.02, 0.0])
     reg('surface.calc_surface_energy', lambda rng, x, k: (sf.calc_surface_energy, (A(x), tt), {'stt': 0.03, 'trim': True, 'start': True}))
     reg('surface.calc_surface_energy(array red)', lambda rng, x, k: (sf.calc_surface_energy, (A(x), tt), {'up_red': np.array([0.9, 0.8, 1.0]), 'down_red': np.array([0.7, 0.6, 1.0]), 'nodal': False}))
@@ -670,7 +693,52 @@ def judge_one_recipe(ctx, eqsig, name, f, args, kwargs, kind):
     except Exception as e:
         ctx.violation('purity.repeatable', {'kind': 'repeat', 'recipe': CURRENT['recipe']}, '%s raised on the second call only: %r' % (name, e))
     judge_history_independence(ctx, eqsig, name, f, args, kwargs, r1, kind)
+    judge_result_is_the_callers(ctx, name, f, args, kwargs, r1, kind)
     judge_result_ownership(ctx, eqsig, name, r1, args, kwargs)
+
+
+RES_EDIT = 'purity.result-unaffected-by-caller-edits-of-an-earlier-result'
+
+
+def _arg_buffers(args, kwargs):
+    out = []
+    for a in list(args) + list(kwargs.values()):
+        if isinstance(a, np.ndarray):
+            out.append(a)
+        elif is_signal(a):
+            out += [v for v in vars(a).values() if isinstance(v, np.ndarray)]
+    return out
+
+
+def judge_result_is_the_callers(ctx, name, f, args, kwargs, r1, kind):
+    """what a function returns belongs to the caller: after the caller has overwritten every array of an earlier result, the
+    same call returns what it returned the first time (a memoised table handed out by reference - functools.lru_cache on a
+    function that returns an array - is changed for every later call by such an edit). Result arrays that share memory with
+    an argument (or with an array held by a signal argument) are left alone and counted."""
+    arrs = [a for a in _result_arrays(r1) if isinstance(a, np.ndarray) and a.size and a.dtype.kind in 'iufcb']
+    if not arrs or sum(a.nbytes for a in arrs) > 4000000:
+        return
+    bufs = _arg_buffers(args, kwargs)
+    if any(np.shares_memory(a, b) for a in arrs for b in bufs):
+        ctx.observe('result shares memory with an argument (not edited): ' + name.split('(')[0])
+        return
+    keep = copy.deepcopy(r1)
+    for a in arrs:
+        if not a.flags.writeable:
+            ctx.observe('result array is read-only (not edited)')
+            return
+    for a in arrs:
+        a[...] = np.array(7).astype(a.dtype) if a.dtype.kind != 'b' else ~a
+    try:
+        with warnings.catch_warnings():
+            warnings.simplefilter('ignore')
+            r4 = f(*args, **kwargs)
+    except Exception as e:
+        ctx.violation(RES_EDIT, {'kind': 'repeat', 'recipe': CURRENT['recipe']},
+                      '%s raised after the caller overwrote the arrays of an earlier result: %r' % (name, e))
+        return
+    ctx.check(same_result(keep, r4), RES_EDIT, lambda: {'kind': 'repeat', 'recipe': CURRENT['recipe']},
+              '%s returned a different result after the caller overwrote the arrays an earlier call had returned (%s input)' % (name, kind))
 
 
 HIST_IND = 'purity.result-independent-of-earlier-calls'
